@@ -30,7 +30,7 @@ EXCS = ['ValueError', 'KeyError', 'NeedsArgs', 'CustomDerived', 'Chained',
         # classes with unusual object protocols
         'Unhashable', 'UnhashableChained', 'AlwaysEqual', 'FalsyError',
         'BufferError', 'NotADirectoryError',
-        'ImportError', 'SyntaxError', 'TimeoutError']
+        'ImportError', 'SyntaxError', 'TimeoutError', 'MemoryError']
 MSGS = [None, 'café ☃', 'line1\nline2\n  indented', 'x' * 300,
         '%s %d {}', '',
         # what os.fsdecode() makes of an undecodable file name, control and
@@ -185,6 +185,13 @@ RUNNER_TB = re.compile(r'Traceback \(most recent call last\):\n(?:.*\n)*?'
 
 def classify_raise(tb, case):
     tb = tb or ''
+    hooks = [str(v) for h in ((case.get('plan') or {}).get('layers')
+                              or {}).values() for v in h.values()]
+    if 'raise:MemoryError' in hooks and 'MemoryError' in tb and \
+            ('in setup_layer' in tb or 'in tear_down_unneeded' in tb):
+        # the runner re-raises a MemoryError that comes out of a layer's
+        # setUp / tearDown on purpose ("except MemoryError: raise")
+        return 'memoryerror-from-layer-hook-reraised'
     if 'UnicodeEncodeError' in tb and 'formatter.py' in tb:
         return 'unencodable-text-aborts-run'
     if 'getvalue' in tb and '_restoreStdStreams' in tb:
@@ -379,6 +386,18 @@ def run_case(case):
     sig = None
     if counters['faults_fired'] and (after or lfired):
         sig = [common.shape_of(spec), plan, opts]
+    if any(e['k'] in ('layer.setUp.exit', 'layer.tearDown.exit') and
+           e.get('exc') == 'MemoryError' for e in w.events):
+        # a MemoryError did come out of a layer hook: the runner gives up on
+        # purpose (known finding); what follows from that in a layer
+        # subprocess - it dies without a report - carries the same key
+        counters['memoryerror_out_of_a_layer_hook'] = 1
+        for x in viol:
+            if x['rule'] in ('child-aborted', 'layers-left-set-up-at-end',
+                             'failure-not-recorded-against-its-layer',
+                             'runnable-test-did-not-run',
+                             'summary-line-missing', 'totals-line-missing'):
+                x['mech'] = 'memoryerror-from-layer-hook-reraised'
     return {'viol': viol[:8], 'evals': 1, 'sig': sig, 'counters': counters,
             'sample': {'opts': opts, 'plan': plan,
                        'faulty': [(t, tests[t][0]['kind'],
